@@ -40,7 +40,7 @@ OpOf(n, tag) ==
     [] n = "RawRecv"    -> <<"RawRecv", NONE>>
     [] n = "CloseSend"  -> <<"CloseSend", NONE>>
     [] n = "Close"      -> <<"Close", NONE>>
-    [] n = "SendError"  -> <<"SendError", [tag |-> tag]>>
+    [] n = "SendError"  -> <<"SendError", [tag |-> tag, gate |-> FALSE]>>
     [] n = "CancelC"    -> <<"Cancel", [err |-> "Canceled"]>>
     [] n = "CancelD"    -> <<"Cancel", [err |-> "Deadline"]>>
     [] n = "SendCancel" -> <<"SendCancel", [err |-> "Canceled"]>>
